@@ -270,6 +270,21 @@ def check_L4(ctx, rep):
                 if r is not None and roles.get(r['id']) == 'TO':
                     rep.viol('L4', where, 'unchecked-insert:' + x['m'],
                              '`%s` inserts without looking the key up: keys present on both sides of a merge end up twice in `to`' % x['m'], loc=cr.loc(x))
+        # O2c: a multi-valued index (the value of a key is a collection of rows) is merged per key: `to.insert(k, v)` replaces what `to`
+        # already holds for a key present on both sides (total's rows of that key are lost); accepted: entry(k) .. extend / append
+        for x, parents in walk(b['tree']):
+            if x.get('k') == 'mcall' and x['m'] == 'insert' and len(x['a']) == 2:
+                r = chain_root(x['r'])
+                if r is None or roles.get(r['id']) != 'TO':
+                    continue
+                vty = (cr.ty(x['a'][1]) or '').replace('&mut ', '').replace('&', '')
+                coll = any(vty.startswith(t) or ('::' + t) in vty.split('<')[0] + '<' for t in ('std::collections::HashSet<', 'std::vec::Vec<', 'hashbrown::HashSet<',
+                           'std::collections::BTreeSet<', 'std::collections::VecDeque<', 'smallvec::SmallVec<')) or vty.split('<')[0].endswith(('HashSet', 'Vec', 'BTreeSet'))
+                rep.inst('L4', '%s: to.insert(k, v) with a value of type %s (%s)' % (where, vty[:50], 'collection: overwrites' if coll else 'single value'))
+                if coll:
+                    rep.viol('L4', where, 'overwriting-insert',
+                             '`to.insert(k, v)` with a collection value (%s) replaces the rows `to` already holds for a key present on both sides of the '
+                             'merge instead of adding to them' % vty[:60], loc=cr.loc(x))
         # O3: swaps exchange from/to themselves (or drained value with the destination slot), never one side with a fresh value
         for x, parents in walk(b['tree']):
             c = callee(x)
